@@ -251,7 +251,7 @@ def mutate(draw, t):
 
 def gen(draw):
     p = gen_pat(draw, 3)
-    c = draw(st.integers(0, 9))
+    c = draw(st.sampled_from([0, 1, 2, 4, 5, 6, 7, 4, 5, 8, 9, 6]))
     if c < 4:
         fam, t = 'derived', gen_from(draw, p)
     elif c < 8:
